@@ -75,6 +75,7 @@ func TestC01(t *testing.T) {
 				o.BigProb = 0
 				var ft *Features
 				g := rapid.Custom(func(rt *rapid.T) *Value {
+					rapid.Bool().Draw(rt, "_")
 					v, f := GenValue(rt, holder, o)
 					ft = f
 					return v
